@@ -110,27 +110,32 @@ theorem reach_addWordinfo {c : TCfg Wt} (hc : c.Faithful) {y : TTx W Wt} (h : Re
     rw [hc.re]
     exact reach_addExisting (h.rd _) hd hg
 
+theorem reach_massRound {c : TCfg Wt} (hc : c.Faithful) {d : Int} (hd : D d) {y : TTx W Wt} (h : Reach D x y)
+    (wid : Nat) (f : Wt) : Reach D x (TTx.massRound c y d wid f).1 := by
+  unfold TTx.massRound
+  simp only
+  cases hg : AMap.get (y.rd (.wi wid)).heap.wordinfo wid with
+  | none =>
+    simp only
+    refine Reach.step (.wiSet wid (.dict [(d, f)])) (h.rd _) ⟨?_, fun o e => by cases e⟩
+    intro d' hd'
+    have hne : d ≠ d' := fun e => hd' (e ▸ hd)
+    have : (y.rd (.wi wid)).heap.posting wid = [] := by
+      unfold THeap.posting; rw [hg]
+    rw [this]
+    simp [pvalPosting, AMap.get_cons, hne]
+  | some v =>
+    simp only
+    rw [hc.mass]
+    exact reach_addExisting (h.rd _) hd hg
+
 theorem reach_massLoop {c : TCfg Wt} (hc : c.Faithful) {d : Int} (hd : D d) :
     ∀ (l : AMap Nat Wt) {y : TTx W Wt}, Reach D x y → Reach D x (TTx.massLoop c y d l).1
   | [], y, h => h
   | (wid, f) :: rest, y, h => by
     unfold TTx.massLoop
     simp only
-    apply reach_massLoop hc hd rest
-    cases hg : AMap.get (y.rd (.wi wid)).heap.wordinfo wid with
-    | none =>
-      simp only
-      refine Reach.step (.wiSet wid (.dict [(d, f)])) (h.rd _) ⟨?_, fun o e => by cases e⟩
-      intro d' hd'
-      have hne : d ≠ d' := fun e => hd' (e ▸ hd)
-      have : (y.rd (.wi wid)).heap.posting wid = [] := by
-        unfold THeap.posting; rw [hg]
-      rw [this]
-      simp [pvalPosting, AMap.get_cons, hne]
-    | some v =>
-      simp only
-      rw [hc.mass]
-      exact reach_addExisting (h.rd _) hd hg
+    exact reach_massLoop hc hd rest (reach_massRound hc hd h wid f)
 
 theorem reach_massAdd {c : TCfg Wt} (hc : c.Faithful) {y : TTx W Wt} (h : Reach D x y) {d : Int} (hd : D d)
     (l : AMap Nat Wt) : Reach D x (TTx.massAdd c y d l) := by
